@@ -249,11 +249,18 @@ pub fn gen_case(w: &mut World, p: &Profile) -> CaseA {
             _ => p.err_pct / 3,
         };
         if Some(i) == always {
-            leaves.push(LeafSpec { script: vec![], always_ready: true });
+            leaves.push(LeafSpec { script: vec![], always_ready: true, resumable: false });
             continue;
         }
-        let script = gen_script(w, p, *stream, never[i], err_pct);
-        leaves.push(LeafSpec { script, always_ready: false });
+        let mut script = gen_script(w, p, *stream, never[i], err_pct);
+        // C19: the inner stream of a (flat) wait_until may be non-fused; the executor then polls on after `None`
+        // and wait_until has to stay a transparent view of it
+        let resumable = !p.small && shape.fam == Fam::WaitS && !shape.nested() && *idx == 0 && *fam == Fam::WaitS && !never[i] && w.chance(30);
+        if resumable {
+            let more = gen_script(w, p, true, false, 0);
+            script.extend(more);
+        }
+        leaves.push(LeafSpec { script, always_ready: false, resumable });
     }
     // one injected panic at a single child poll
     if nl > 0 && w.chance(p.panic_pct) {
@@ -432,6 +439,7 @@ pub fn run_case(p: &Profile, case: &CaseA) -> ExecOut {
                     w.ev(Ev::ExecPoll { n, waker: wid, spurious: o == 3 });
                 });
                 let mut cx = Context::from_waker(&waker);
+                let polls_before = w(|w| w.st.child_polls);
                 let r = std::panic::catch_unwind(std::panic::AssertUnwindSafe(|| match root.as_mut().unwrap() {
                     Root::F(f) => match f.as_mut().poll(&mut cx) {
                         Poll::Pending => (Res::Pend, None),
@@ -454,11 +462,19 @@ pub fn run_case(p: &Profile, case: &CaseA) -> ExecOut {
                         w(|w| {
                             w.phase = Phase::Idle;
                             w.poll_stack.clear();
+                            // (a wait_until over a non-fused inner stream is polled on after `None`)
+                            // (... as long as it forwards those polls: a poll that touched no child was not forwarded,
+                            // the model has reported it, and repeating it would only burn the step budget)
+                            let resumes = res == Res::End && (0..w.ch.len()).any(|c| w.resumes(c)) && w.st.child_polls > polls_before;
                             w.root_last = match res {
                                 Res::Pend => RootLast::Pending,
                                 Res::Item(_) => RootLast::Item,
+                                _ if resumes => RootLast::Item,
                                 _ => RootLast::Final,
                             };
+                            if resumes {
+                                w.st.polls_after_none += 1;
+                            }
                             if res == Res::Pend {
                                 w.st.root_pending += 1;
                             }
